@@ -203,7 +203,8 @@ def cellOfArea (ax ay cols rows : Nat) : Option (Nat × Nat) :=
         workaround is on;
     (2) ioctl zero/failing, the terminal answers the cell-size query `ESC[6;h;wt` (whatever
         follows, DA1 last): exactly `(w, h)` — `none` if one is 0;
-    (3) it answers only the text-area query `ESC[4;H;Wt`: `(W ÷ cols, H ÷ rows)`, swap applied;
+    (3) it answers only the text-area query `ESC[4;H;Wt`: `(W ÷ cols, H ÷ rows)`, swap applied
+        (under Termux, `$SHELL` in `/data/data/com.termux/`, the reported height counts double);
     in (2),(3) for every timing before the timeout, nothing is left unread. -/
 theorem cell_size_rules (T : Nat) (w : Stream) (cols rows : Nat) (hc : 0 < cols) (hr : 0 < rows)
     (swap : Bool) :
@@ -216,13 +217,13 @@ theorem cell_size_rules (T : Nat) (w : Stream) (cols rows : Nat) (hc : 0 < cols)
       getCellSize true T w s cols rows io swap termux =
         (.ok (if decVal wd = 0 ∨ decVal h = 0 then none else some (decVal wd, decVal h)),
           (getCellSize true T w s cols rows io swap termux).2.1, [])) ∧
-    (∀ (s : Stream) (io : Option (Nat × Nat)) (h wd mid : Bytes),
+    (∀ (s : Stream) (io : Option (Nat × Nat)) (h wd mid : Bytes) (termux : Bool),
       (io = none ∨ ∃ x y, io = some (x, y) ∧ (x = 0 ∨ y = 0)) → (∀ x ∈ w, x.1 = 0) →
       DigNE h → DigNE wd → 99 ∉ mid → sbytes s = (winopsReply 52 h wd ++ mid) ++ [99] → span s < T →
-      getCellSize true T w s cols rows io swap false =
-        (.ok (if swap then cellOfArea (decVal h) (decVal wd) cols rows
-              else cellOfArea (decVal wd) (decVal h) cols rows),
-          (getCellSize true T w s cols rows io swap false).2.1, [])) := by
+      getCellSize true T w s cols rows io swap termux =
+        (.ok (if swap then cellOfArea (if termux then decVal h * 2 else decVal h) (decVal wd) cols rows
+              else cellOfArea (decVal wd) (if termux then decVal h * 2 else decVal h) cols rows),
+          (getCellSize true T w s cols rows io swap termux).2.1, [])) := by
   have hcr : (cols == 0 && rows == 0) = false := by simp; omega
   have hc0 : (cols == 0) = false := by simp; omega
   have hr0 : (rows == 0) = false := by simp; omega
@@ -239,7 +240,7 @@ theorem cell_size_rules (T : Nat) (w : Stream) (cols rows : Nat) (hc : 0 < cols)
     rcases hio with rfl | ⟨x, y, rfl, hxy⟩
     · simp [getCellSize, hcr, q.1, q.2, hne, hm]
     · rcases hxy with rfl | rfl <;> simp [getCellSize, hcr, q.1, q.2, hne, hm]
-  · intro s io h wd mid hio hw hh hwd hmid hb ht
+  · intro s io h wd mid termux hio hw hh hwd hmid hb ht
     have hno : 99 ∉ winopsReply 52 h wd ++ mid := by
       simp only [List.mem_append, not_or]
       exact ⟨winopsReply_noC 52 h wd (by decide) hh hwd, hmid⟩
@@ -248,9 +249,10 @@ theorem cell_size_rules (T : Nat) (w : Stream) (cols rows : Nat) (hc : 0 < cols)
     have hm6 := matchWinops_other 54 52 h wd (mid ++ [99]) (by decide)
     have hne : (winopsReply 52 h wd ++ (mid ++ [99])).isEmpty = false := by simp [winopsReply]
     rcases hio with rfl | ⟨x, y, rfl, hxy⟩
-    · cases swap <;> simp [getCellSize, hcr, q.1, q.2, hne, hm, hm6, hc0, hr0, cellOfArea]
-    · rcases hxy with rfl | rfl <;>
-        cases swap <;> simp [getCellSize, hcr, q.1, q.2, hne, hm, hm6, hc0, hr0, cellOfArea]
+    · cases termux <;> cases swap <;>
+        simp [getCellSize, hcr, q.1, q.2, hne, hm, hm6, hc0, hr0, cellOfArea]
+    · rcases hxy with rfl | rfl <;> cases termux <;> cases swap <;>
+        simp [getCellSize, hcr, q.1, q.2, hne, hm, hm6, hc0, hr0, cellOfArea]
 
 /-! ## style support and automatic style -/
 
@@ -276,10 +278,11 @@ theorem kitty_query_roundtrip (T : Nat) (w s : Stream) (params : Bytes) (name ve
     simpa [kittySupported, hn'] using this
   · simp [kittySupported, hn', q.2]
 
-/-- SUPPORT RULES. kitty style ⇔ the terminal is not iTerm2, answered the graphics query with
+/-- SUPPORT RULES on arbitrary version strings (through `versionTuple`, the model of
+    `tuple(map(int, version.split(".")))`). kitty style ⇔ the terminal is not iTerm2, answered the graphics query with
     id 31 / `OK`, and is kitty with a version tuple ≥ (0, 20, 0) or is konsole;
     iterm2 style ⇔ iTerm2 or WezTerm, or konsole with a version tuple ≥ (22, 4, 0). -/
-theorem support_rules (resp : Bytes) (name ver : Option Bytes) :
+theorem support_rules_tuple (resp : Bytes) (name ver : Option Bytes) :
     (kittyDecision (some resp) name ver = true ↔
       (resp ≠ [] ∧ matchKittyResponse resp = some ([51, 49], [79, 75]) ∧
         ((name = some sKitty ∧ ∃ v t, ver = some v ∧ v ≠ [] ∧ versionTuple v = some t ∧ lexGe t [0, 20, 0] = true)
@@ -356,6 +359,83 @@ theorem version_ge_kitty (a b c : Nat) :
       simp [this]; omega
   · have : ((a : Int) == 0) = false := by simp; omega
     simp [this]; omega
+
+/-- the decimal rendering `a.b.c` of any three naturals reads back as the tuple `(a, b, c)` -/
+theorem version_tuple_of_rendering (a b c : Nat) :
+    versionTuple (renderVersion a b c) = some [(a : Int), (b : Int), (c : Int)] :=
+  versionTuple_render a b c
+
+/-- SUPPORT RULES on version numbers. The terminal answers the kitty graphics query with
+    `i=31;OK` and DA1 (any timing before the timeout, stale input allowed). Then
+    (1) a terminal named `kitty` of version `a.b.c` is reported to support the kitty style
+        iff `(a, b, c) ≥ (0, 20, 0)`, i.e. `a > 0 ∨ b ≥ 20` (`version_ge_kitty`);
+    (2) `konsole` is supported whatever its version string;
+    (3) any other terminal is not, although it answered OK;
+    (4) nothing is left unread;
+    (5) the iterm2 style is reported supported for a terminal of version `a.b.c` iff it is
+        iTerm2 or WezTerm, or konsole with `(a, b, c) ≥ (22, 4, 0)`, i.e. `a > 22 ∨ (a = 22 ∧ b ≥ 4)`. -/
+theorem support_rules (T : Nat) (w s : Stream) (params : Bytes) (a b c : Nat)
+    (hw : ∀ x ∈ w, x.1 = 0) (hp : 99 ∉ params)
+    (hb : sbytes s = (kittyOkReply ++ (csi ++ params)) ++ [99]) (ht : span s < T) :
+    ((kittySupported true T w s (some sKitty) (some (renderVersion a b c))).1 = true ↔ (0 < a ∨ 20 ≤ b)) ∧
+    (∀ ver, (kittySupported true T w s (some sKonsole) ver).1 = true) ∧
+    (∀ name ver, name ≠ some sKitty → name ≠ some sKonsole →
+      (kittySupported true T w s name ver).1 = false) ∧
+    (∀ name ver, name ≠ some sIterm2 → (kittySupported true T w s name ver).2.2 = []) ∧
+    (∀ name, itermSupported name (some (renderVersion a b c)) = .ok true ↔
+      (name = some sIterm2 ∨ name = some sWezterm ∨
+        (name = some sKonsole ∧ (22 < a ∨ (a = 22 ∧ 4 ≤ b))))) := by
+  have hne : kittyOkReply ++ (csi ++ params) ++ [99] ≠ [] := by simp
+  have key := fun (name ver : Option Bytes) (hn : name ≠ some sIterm2) =>
+    kitty_query_roundtrip T w s params name ver hw hn hp hb ht
+  refine ⟨?_, ?_, ?_, ?_, ?_⟩
+  · have k := key (some sKitty) (some (renderVersion a b c)) (by decide)
+    rw [k.1, (support_rules_tuple _ (some sKitty) (some (renderVersion a b c))).1]
+    constructor
+    · rintro ⟨_, _, h⟩
+      rcases h with ⟨_, v, t, hv, _, hvt, hge⟩ | hk
+      · injection hv with hv
+        subst hv
+        rw [versionTuple_render] at hvt
+        injection hvt with hvt
+        subst hvt
+        exact (version_ge_kitty a b c).1 hge
+      · exact absurd hk (by decide)
+    · intro h
+      exact ⟨hne, k.2.1, Or.inl ⟨rfl, _, _, rfl, renderVersion_ne_nil a b c, versionTuple_render a b c,
+        (version_ge_kitty a b c).2 h⟩⟩
+  · intro ver
+    have k := key (some sKonsole) ver (by decide)
+    rw [k.1, (support_rules_tuple _ (some sKonsole) ver).1]
+    exact ⟨hne, k.2.1, Or.inr rfl⟩
+  · intro name ver h1 h2
+    by_cases hi : name = some sIterm2
+    · subst hi; simp [kittySupported]
+    · have k := key name ver hi
+      rw [k.1]
+      cases hd : kittyDecision (some (kittyOkReply ++ (csi ++ params) ++ [99])) name ver with
+      | false => rfl
+      | true =>
+        have := (support_rules_tuple _ name ver).1.1 hd
+        rcases this.2.2 with ⟨hk, _⟩ | hk
+        · exact absurd hk h1
+        · exact absurd hk h2
+  · intro name ver hn
+    exact (key name ver hn).2.2.2
+  · intro name
+    rw [(support_rules_tuple [] name (some (renderVersion a b c))).2 _ rfl]
+    constructor
+    · rintro (h | h | ⟨hk, t, hvt, hge⟩)
+      · exact Or.inl h
+      · exact Or.inr (Or.inl h)
+      · rw [versionTuple_render] at hvt
+        injection hvt with hvt
+        subst hvt
+        exact Or.inr (Or.inr ⟨hk, (version_ge_konsole a b c).1 hge⟩)
+    · rintro (h | h | ⟨hk, h⟩)
+      · exact Or.inl h
+      · exact Or.inr (Or.inl h)
+      · exact Or.inr (Or.inr ⟨hk, _, versionTuple_render a b c, (version_ge_konsole a b c).2 h⟩)
 
 /-- AUTO ORDER: `auto_image_class()` returns the first supported style of `_styles` =
     kitty, then iterm2, then block — block also when nothing is supported. -/
@@ -450,5 +530,12 @@ example : kittyDecision (some (kittyOkReply ++ [27, 91, 63, 54, 99])) (some sKit
 
 example : kittyDecision (some (kittyOkReply ++ [27, 91, 63, 54, 99])) (some sKitty) (some [48, 46, 49, 57, 46, 51]) = false := by
   decide
+
+
+/-- `renderVersion 0 20 0` is the string `0.20.0`, `renderVersion 22 4 0` is `22.4.0` -/
+example : renderVersion 0 20 0 = [48, 46, 50, 48, 46, 48] ∧ renderVersion 22 4 0 = [50, 50, 46, 52, 46, 48] := by
+  decide
+
+example : itermSupported (some sKonsole) (some (renderVersion 22 3 9)) = .ok false := by rfl
 
 end TIV.C12
